@@ -1,1 +1,79 @@
-import EoNVerif.Model.EventSIR
+import EoNVerif.Proofs.EventSIRFinal
+/-!
+C11 — target statements: the event-queue algorithm of `fast_nonMarkov_SIR` computes first-passage percolation,
+for every delay/duration table (ties, 0 and ∞ included) and every order in which simultaneous events are popped.
+-/
+namespace EventSIR
+
+/-! `WF`, `tableParams`, `recoveriesOf`, `Reach` are defined (unchanged) in `EoNVerif/Proofs/EventSIR.lean`. -/
+
+/-- **soundness (every fuel, every tie order)**: each reported transmission goes along a kept edge from a node
+reported infected `delay` earlier, or is a source-less entry of an initial node at `tmin`; all times are `< tmax`. -/
+theorem fpp_sound (nodes : List Node) (nbrs : Node → List Node) (delay : Node → Node → ERat) (dur : Node → ERat)
+    (tmin : Rat) (tmax : ERat) (infs recs : List Node) (h : WF nodes nbrs delay dur infs recs)
+    (sel : Nat → Nat) (fuel : Nat) :
+    let s := run (tableParams nodes nbrs delay dur tmin tmax) sel infs recs fuel
+    ∀ e ∈ s.trans, ERat.lt (some e.1) tmax = true ∧
+      match e.2.1 with
+      | none => e.2.2 ∈ infs ∧ e.1 = tmin
+      | some u => keeps nbrs delay dur u e.2.2 = true ∧ u ∉ recs ∧
+          ∃ eu ∈ s.trans, eu.2.2 = u ∧ ERat.add (some eu.1) (delay u e.2.2) = some e.1 := by
+  intro s e he
+  have hI : Inv nodes nbrs delay dur tmin tmax infs recs s := Inv.run h sel fuel
+  refine ⟨hI.tr_lt e he, ?_⟩
+  have hsrc := hI.tr_src e he
+  obtain ⟨t, src, v⟩ := e
+  cases src with
+  | none => exact hsrc
+  | some u =>
+    obtain ⟨h1, eu, heu, hu, hadd⟩ := hsrc
+    obtain ⟨p, hp⟩ := hI.tr_walk eu heu
+    exact ⟨h1, hu ▸ TW.not_recs hp, eu, heu, hu, hadd⟩
+
+/-- each node is reported infected at most once -/
+theorem fpp_once (nodes : List Node) (nbrs : Node → List Node) (delay : Node → Node → ERat) (dur : Node → ERat)
+    (tmin : Rat) (tmax : ERat) (infs recs : List Node) (h : WF nodes nbrs delay dur infs recs)
+    (sel : Nat → Nat) (fuel : Nat) (v : Node) :
+    ((run (tableParams nodes nbrs delay dur tmin tmax) sel infs recs fuel).trans.filter fun e => e.2.2 == v).length ≤ 1 := by
+  have hI : Inv nodes nbrs delay dur tmin tmax infs recs _ := Inv.run h sel fuel
+  apply nodup_filter_le_one (List.Nodup.of_map _ hI.tr_nodup)
+  intro x hx y hy hxv hyv
+  simp only [beq_iff_eq] at hxv hyv
+  exact List.inj_on_of_nodup_map hI.tr_nodup hx hy (by rw [hxv, hyv])
+
+/-- **termination**: the queue is empty after at most `(N+1)² + N + 1` pops -/
+theorem fpp_terminates (nodes : List Node) (nbrs : Node → List Node) (delay : Node → Node → ERat) (dur : Node → ERat)
+    (tmin : Rat) (tmax : ERat) (infs recs : List Node) (h : WF nodes nbrs delay dur infs recs)
+    (sel : Nat → Nat) (fuel : Nat) (hf : (nodes.length + 1) * (nodes.length + 1) + nodes.length + 1 ≤ fuel) :
+    (run (tableParams nodes nbrs delay dur tmin tmax) sel infs recs fuel).queue = [] := by
+  apply loop_queue_empty h sel fuel 0 _ (Inv.init h)
+  have := mu_init (tmin := tmin) (tmax := tmax) h
+  omega
+
+/-- **first-passage percolation (full statement)**: once the queue is empty the reported infection times are the
+shortest-path times of the kept-edge digraph, infectors are shortest-path predecessors, recoveries are `dur` later,
+nothing at or after `tmax` is reported — whatever the tie-breaking order. -/
+theorem fpp (nodes : List Node) (nbrs : Node → List Node) (delay : Node → Node → ERat) (dur : Node → ERat)
+    (tmin : Rat) (tmax : ERat) (infs recs : List Node) (h : WF nodes nbrs delay dur infs recs)
+    (sel : Nat → Nat) (fuel : Nat)
+    (hq : (run (tableParams nodes nbrs delay dur tmin tmax) sel infs recs fuel).queue = []) :
+    let s := run (tableParams nodes nbrs delay dur tmin tmax) sel infs recs fuel
+    isFPP nodes nbrs delay dur tmin tmax infs recs s.trans (recoveriesOf nodes recs s) = true :=
+  (Inv.run h sel fuel).isFPP h hq
+
+/-- `outComp` (`get_infected_nodes`) is the out-component of the initial set in the kept-edge digraph -/
+theorem outComp_spec (nodes : List Node) (nbrs : Node → List Node) (delay : Node → Node → ERat) (dur : Node → ERat)
+    (infs recs : List Node) (h : WF nodes nbrs delay dur infs recs) (v : Node) :
+    v ∈ outComp nodes nbrs delay dur infs recs ↔ Reach nbrs delay dur infs recs v :=
+  outComp_iff h v
+
+end EventSIR
+
+/-! non-vacuity: a triangle with a tie, a zero delay and an infinite duration -/
+def exNb (u : Node) : List Node := match u with | 0 => [1, 2] | 1 => [0, 2] | 2 => [0, 1] | _ => []
+def exDelay (u v : Node) : ERat := if u = 0 ∧ v = 1 then some 1 else if u = 0 ∧ v = 2 then some 1 else if u = 1 ∧ v = 2 then some 0 else some 5
+def exDur (u : Node) : ERat := if u = 0 then none else some 2
+#eval (EventSIR.run (EventSIR.tableParams [0,1,2] exNb exDelay exDur 0 none) (fun _ => 0) [0] [] 50).trans.reverse
+#eval EventSIR.isFPP [0,1,2] exNb exDelay exDur 0 none [0] []
+  (EventSIR.run (EventSIR.tableParams [0,1,2] exNb exDelay exDur 0 none) (fun _ => 1) [0] [] 50).trans
+  (EventSIR.recoveriesOf [0,1,2] [] (EventSIR.run (EventSIR.tableParams [0,1,2] exNb exDelay exDur 0 none) (fun _ => 1) [0] [] 50))
